@@ -35,6 +35,21 @@ theorem missing_eq {s : State V} {t : Table V} (h : Inv s t) (docids : List Int)
   unfold missing
   exact List.filter_congr (fun d _ => by rw [sortable_eq h d]; simp)
 
+theorem stableSort_eq (t : Table V) (rev : Bool) (docids : List Int) :
+    stableSort t rev docids = isort (keyLeB t rev) (sortables t docids) := by
+  unfold stableSort
+  exact isort_decorate (valueOf t) (optLe rev) _
+
+theorem sortedByKey_eq {α β : Type} (lt : β → β → Bool) (f : α → β) (xs : List α) :
+    sortedByKey lt f xs = isort (fun a b => !lt (f b) (f a)) xs := by
+  unfold sortedByKey sortedPy
+  exact isort_decorate f (fun u v => !lt v u) xs
+
+theorem sortedByKeyRev_eq {α β : Type} (lt : β → β → Bool) (f : α → β) (xs : List α) :
+    sortedByKeyRev lt f xs = isort (fun a b => !lt (f a) (f b)) xs := by
+  unfold sortedByKeyRev sortedPyRev
+  exact isort_decorate f (fun u v => !lt u v) xs
+
 theorem filled_shouldRaise (t : Table V) (docids : List Int) (limit : Option Nat) (raiseU : Bool) :
     (!filled limit (sortables t docids).length && raiseU && !(missing t docids).isEmpty) =
       shouldRaise t docids limit raiseU := by
@@ -205,7 +220,7 @@ theorem timLe_tp (o : OrdLaws V) (s : State V) (reverse : Bool) : TotalPreorder 
 theorem timLe_eq_keyLeB (o : OrdLaws V) {s : State V} {t : Table V} (h : Inv s t) (reverse : Bool)
     (a b : Int) (ha : sortable t a = true) (hb : sortable t b = true) :
     timLe s reverse a b = keyLeB t reverse a b := by
-  unfold timLe keyLeB
+  unfold timLe keyLeB optLe
   rw [← h.rev_eq, ← h.rev_eq]
   rw [sortable_eq h] at ha hb
   cases hga : AMap.get s.rev a with
@@ -249,8 +264,7 @@ theorem timLe_keyLe (o : OrdLaws V) {s : State V} {t : Table V} (h : Inv s t) (r
 theorem timsort_sorted_eq (o : OrdLaws V) {s : State V} {t : Table V} (h : Inv s t)
     (docids : List Int) (reverse : Bool) :
     (isort (timLe s reverse) docids).filter (fun d => sortable t d) = stableSort t reverse docids := by
-  rw [filter_isort (timLe_tp o s reverse)]
-  unfold stableSort
+  rw [filter_isort (timLe_tp o s reverse), stableSort_eq]
   apply isort_congr
   intro a ha b hb
   exact timLe_eq_keyLeB o h reverse a b (List.mem_filter.mp ha).2 (List.mem_filter.mp hb).2
@@ -259,10 +273,12 @@ theorem timsort_ids (o : OrdLaws V) {s : State V} {t : Table V} (h : Inv s t)
     (docids : List Int) (limit : Option Nat) (hlim : limit ≠ some 0) (reverse raiseU : Bool) :
     (timsort s docids limit reverse raiseU).ids = takeL limit (stableSort t reverse docids) ∧
     (timsort s docids limit reverse raiseU).raised.isSome = shouldRaise t docids limit raiseU := by
-  have hsorted : (if reverse then sortedPyRev (fun (a b : Int) => ltAsc (AMap.get s.rev a) (AMap.get s.rev b)) docids
-      else sortedPy (fun (a b : Int) => ltAsc (AMap.get s.rev a) (AMap.get s.rev b)) docids)
+  have hsorted : (if reverse then sortedByKeyRev ltAsc (fun d => AMap.get s.rev d) docids
+      else sortedByKey ltAsc (fun d => AMap.get s.rev d) docids)
       = isort (timLe s reverse) docids := by
-    cases reverse <;> rfl
+    cases reverse
+    · simp only [Bool.false_eq_true, if_false, sortedByKey_eq]; rfl
+    · simp only [if_true, sortedByKeyRev_eq]; rfl
   have hfilter : (isort (timLe s reverse) docids).filter
       (fun d => !decide (d ∈ docids.filter (fun d => (AMap.get s.rev d).isNone)))
       = stableSort t reverse docids := by
@@ -273,7 +289,7 @@ theorem timsort_ids (o : OrdLaws V) {s : State V} {t : Table V} (h : Inv s t)
     rw [sortable_eq h]
     cases hg : AMap.get s.rev d <;> simp [hd', hg]
   have hlen : (stableSort t reverse docids).length = (sortables t docids).length := by
-    unfold stableSort; exact length_isort _ _
+    rw [stableSort_eq]; exact length_isort _ _
   unfold timsort
   simp only [hsorted]
   constructor
@@ -283,7 +299,8 @@ theorem timsort_ids (o : OrdLaws V) {s : State V} {t : Table V} (h : Inv s t)
       cases (missing t docids).isEmpty <;> simp
 
 theorem stableSort_perm (t : Table V) (reverse : Bool) (docids : List Int) :
-    (stableSort t reverse docids).Perm (sortables t docids) := isort_perm _ _
+    (stableSort t reverse docids).Perm (sortables t docids) := by
+  rw [stableSort_eq]; exact isort_perm _ _
 
 theorem stableSort_sorted (o : OrdLaws V) {s : State V} {t : Table V} (h : Inv s t)
     (docids : List Int) (reverse : Bool) : (stableSort t reverse docids).Pairwise (keyLe t reverse) := by
